@@ -721,3 +721,69 @@ Definition pol_kept_b (t : table) (o : op) (t' : table) : bool :=
       | Some e' => existsb (fun x => nid x =? id) found && fresh_b found e'
       end
   end.
+
+(* ================================================================ doRevalidate (the goroutine between startRequest and handleResponse)
+   startRequest captures the node record (node := n.Node); doRevalidate pings it, fetches the record when the PONG
+   announces a higher sequence number than the captured record has, and hands (didRespond, newRecord) to
+   handleResponse.  The captured sequence numbers are kept next to the table (`started`), the remote node's
+   behaviour (PONG or not, announced seq, answer to the ENR request) is the argument of RevalPing. *)
+
+(* what doRevalidate hands over: didRespond iff the ping was answered; a new record only when the announced seq is
+   higher than the captured one and the ENR request succeeded (the record is passed on whatever its seq is) *)
+Definition reval_outcome (start_seq : N) (ping_ok : bool) (ping_seq : N) (enr : option node) : bool * option node :=
+  (ping_ok, if start_seq <? ping_seq then enr else None).
+
+Record xtable := mkX { core : table; started : list (N * N) }.
+
+Inductive xop :=
+| Plain (o : op)
+| RevalPing (id : N) (ping_ok : bool) (ping_seq : N) (enr : option node) (pick : nat).
+
+Fixpoint start_seq (st : list (N * N)) (id : N) : option N :=
+  match st with [] => None | (i, s) :: r => if i =? id then Some s else start_seq r id end.
+
+(* the table operation an extended operation amounts to *)
+Definition xresolve (x : xtable) (o : xop) : op :=
+  match o with
+  | Plain o => o
+  | RevalPing id ok sq enr p =>
+      match start_seq (started x) id with
+      | Some s0 => let '(r, nr) := reval_outcome s0 ok sq enr in RevalResp id r nr p
+      | None => RevalResp id ok None p          (* no request in flight: handleResponse is not reached *)
+      end
+  end.
+
+Definition seq_of (t : table) (id : N) : N :=
+  match find_entry t id with Some e => nseq (nd e) | None => 0 end.
+
+(* requests in flight after the step, with the seq captured when they were started *)
+Definition started_after (t : table) (st : list (N * N)) (t' : table) : list (N * N) :=
+  map (fun a : N * bool =>
+         (fst a,
+          match (if is_active (active (gl t)) (fst a) then start_seq st (fst a) else None) with
+          | Some s => s
+          | None => seq_of t (fst a)
+          end)) (active (gl t')).
+
+Definition xstep (x : xtable) (o : xop) : option xtable :=
+  match step (core x) (xresolve x o) with
+  | None => None
+  | Some t' => Some (mkX t' (started_after (core x) (started x) t'))
+  end.
+
+Fixpoint xsteps (x : xtable) (os : list xop) : option xtable :=
+  match os with
+  | [] => Some x
+  | o :: r => match xstep x o with None => None | Some x1 => xsteps x1 r end
+  end.
+
+Definition xinit (s : N) : xtable := mkX (init s) [].
+
+(* (6) an answered liveness check costs no entry its place or credit (operation RevalResp id true .. = what
+   handleResponse gets from doRevalidate when the ping was answered) *)
+Definition pol_credit_b (t : table) (o : op) (t' : table) : bool :=
+  match o with
+  | RevalResp _ true _ _ =>
+      forallb (fun e => match find_entry t' (eid e) with Some e' => checks e <=? checks e' | None => false end) (all_ents t)
+  | _ => true
+  end.
